@@ -117,12 +117,14 @@ fn build_world(w: &WorldSpec) -> ChainBuilder {
         for (ti, n_out) in blk.iter().enumerate() {
             let outs: Vec<TxOut> = (0..*n_out).map(|k| out(k + ti)).collect();
             if ti == 0 {
+                let outs = if w.name.contains("same script") { (0..*n_out).map(|k| TxOut { value: 5 + k as u64, script: script::p2pkh(&script::h20(7)) }).collect() } else { outs };
                 txs.push(coinbase(h, 9, outs));
             } else {
                 // all non-coinbase transactions of a block have the SAME serialised size and the SAME total value, both larger
                 // than the coinbase's: "first one on ties" figures (biggest value / size tx) depend on the order of evaluation
                 // if anything about them is computed inside a parallel region
-                let outs2: Vec<TxOut> = (0..*n_out).map(|k| TxOut { value: 60 * COIN_VALUE + k as u64, script: script::p2pkh(&script::h20(ti as u8 * 16 + k as u8)) }).collect();
+                let same = w.name.contains("same script");
+                let outs2: Vec<TxOut> = (0..*n_out).map(|k| TxOut { value: 60 * COIN_VALUE + k as u64, script: script::p2pkh(&script::h20(if same { 7 } else { ti as u8 * 16 + k as u8 })) }).collect();
                 txs.push(Tx { version: 1, segwit: false, inputs: (0..4).map(|j| TxIn::spend([0xe0 + ti as u8; 32], j)).collect(), outputs: outs2, locktime: 0 });
                 let _ = outs;
             }
@@ -259,6 +261,7 @@ fn c13() -> Report {
     for cn in ["bitcoin", "litecoin"] {
         worlds.push((WorldSpec { name: "1tx x 4out".into(), coin: cn, blocks: vec![vec![4]] }, all5.clone()));
         worlds.push((WorldSpec { name: "2tx x 2out".into(), coin: cn, blocks: vec![vec![2, 2]] }, all5.clone()));
+        worlds.push((WorldSpec { name: "2tx x 2out, all outputs carry the same script".into(), coin: cn, blocks: vec![vec![2, 2]] }, fast.clone()));
         worlds.push((WorldSpec { name: "3tx x 1out".into(), coin: cn, blocks: vec![vec![1, 1, 1]] }, fast.clone()));
         worlds.push((WorldSpec { name: "2 blocks of 2tx x 1out".into(), coin: cn, blocks: vec![vec![1, 1], vec![1, 1]] }, fast.clone()));
         if thorough {
